@@ -243,6 +243,18 @@ if f5: S0["multipleOf"] = m
                   '{"properties": {"a": {"type": "object", "title": "Inner", "properties": {"x": {"minimum": mn}}, "required": ["x"], "additionalProperties": False}}}',
                   group="obj", tier=T, timeout=120)
 
+    # second-round rows (after the seeded misses): keyword x "wrong" value type, empty lists, nested containers
+    hs += _triple("c01_obj_names_int_schema", f"v: {DV}", DPRE, '{"propertyNames": {"type": "integer"}}', group="obj", timeout=60, tier=T)
+    hs += _triple("c01_obj_empty_lists", f"v: {DV}", DPRE, '{"required": [], "dependencies": {"a": [], "b": {}}, "properties": {}, "patternProperties": {}}', group="obj", timeout=60, twins=False)
+    hs += _triple("c01_obj_array_members", "m: int, v: Dict[str, List[int]]", ["len(v) <= 2", "all(k in ('a', 'b') for k in v)", "all(len(x) <= 2 for x in v.values())"],
+                  '{"properties": {"a": {"items": {"minimum": m}, "maxItems": 1}}, "additionalProperties": {"type": "array", "uniqueItems": True}}', group="obj", timeout=120)
+    hs += _triple("c01_arr_combo", f"m: int, n: int, v: {LV}", LPRE + ["n >= 0"], '{"items": {"type": ["integer", "boolean"]}, "contains": {"const": m}, "uniqueItems": True, "minItems": n, "maxItems": 2}', group="arr", timeout=120)
+    hs += _triple("c01_arr_of_dicts", "m: int, v: List[Dict[str, int]]", ["len(v) <= 2", "all(len(d) <= 1 and all(k in ('a', 'b') for k in d) for d in v)"],
+                  '{"items": {"required": ["a"], "properties": {"a": {"maximum": m}}}, "contains": {"required": ["b"]}}', group="arr", timeout=120, tier=T)
+    hs += _triple("c01_oneof_overlapping_objects", f"m: int, v: {DV}", DPRE,
+                  '{"oneOf": [{"required": ["a"]}, {"properties": {"a": {"minimum": m}}}, {"maxProperties": 1}]}', group="comp", timeout=120)
+    hs += _triple("c01_const_none_and_type_number_bool", f"v: {SCALAR}", SCALAR_PRE, '{"anyOf": [{"const": None}, {"type": "number"}]}', group="lit", timeout=60)
+
     # ------------------------------------------------------------ comp family
     def comp(name, schema, tier, timeout=40, twins=False):
         return _triple(name, f"m: int, n: int, v: {COMPV}", COMPV_PRE, schema, group="comp", tier=tier, timeout=timeout, twins=twins)
